@@ -86,8 +86,11 @@ LONG_TIMES = [15000.0, 30000.0, 45000.0, 60000.0, 90000.0, 180000.0, 30000.5]
 GRID_TIMES = [0.0, 1.0, 30.0, 100.0, 250.0, 500.0, 780.0, 1000.0, 1500.0, 2500.0, 4000.0, 0.5, 333.25, 7000.0]
 
 
+OFFGRID_TIMES = [0.1, 1 / 3, 4e-7, 1.25e-5, 1e-9, 0.3, 0.7, 0.0000004, 2.0000005, 999.9999996]
+
+
 def random_plan(rng: random.Random, job: str, variant: int, n: int, with_console: bool = True,
-                max_elapse: float = 8000.0) -> list:
+                max_elapse: float = 8000.0, offgrid: bool = False) -> list:
     """a plan of n commands, generated while running a scratch engine so that most CAST/USE target skills
     the validity view lists as usable; includes re-use during cooldown, RESOLVE after delays, key-down
     stops, zero and fractional elapses and debug lines"""
@@ -149,7 +152,15 @@ def random_plan(rng: random.Random, job: str, variant: int, n: int, with_console
             c = console(rng.choice(CONSOLE_TEXTS))
         else:
             u = rng.random()
-            if u < 0.12:
+            if offgrid and rng.random() < 0.3:
+                # times that are no multiple of any convenient grid (only for the checks that do not go through the
+                # component models, whose time is on the 2^-10 ms grid): thirds, tenths, sub-microsecond steps; also
+                # `x10 ELAPSE 0.1`, whose sum 0.9999999999999999 no short decimal represents
+                t = rng.choice(OFFGRID_TIMES)
+                if rng.random() < 0.3:
+                    shared_e = op("ELAPSE", time=t)
+                    pending = [shared_e] * rng.randint(2, 9)
+            elif u < 0.12:
                 t = rng.choice(LONG_TIMES)      # long enough for periodic skills, buffs and cooldowns to expire
             elif u < 0.75:
                 t = min(rng.choice(GRID_TIMES), max_elapse)
